@@ -147,13 +147,38 @@ func ruleR0(c *Ctx, r *Report, prefix string, fn *ssa.Function, sticky *types.Va
 		return
 	}
 	pParam := fn.Params[1]
+	// p itself, or what is left of it (`p = p[k:]` in a loop: a phi of p and its suffixes)
+	visiting := map[ssa.Value]bool{}
+	var fromP func(v ssa.Value, depth int) bool
+	fromP = func(v ssa.Value, depth int) bool {
+		if v == ssa.Value(pParam) || visiting[v] {
+			return true // (a loop-carried phi is what it is on all its other edges)
+		}
+		if depth > 6 {
+			return false
+		}
+		switch x := v.(type) {
+		case *ssa.Slice:
+			return x.High == nil && fromP(x.X, depth+1)
+		case *ssa.Phi:
+			visiting[v] = true
+			defer delete(visiting, v)
+			for _, e := range x.Edges {
+				if !fromP(e, depth+1) {
+					return false
+				}
+			}
+			return len(x.Edges) > 0
+		}
+		return false
+	}
 	isLenP := func(v ssa.Value) bool {
 		call, ok := v.(*ssa.Call)
 		if !ok {
 			return false
 		}
 		b, ok := call.Call.Value.(*ssa.Builtin)
-		return ok && b.Name() == "len" && call.Call.Args[0] == pParam
+		return ok && b.Name() == "len" && fromP(call.Call.Args[0], 0)
 	}
 	paths, over := CollectPaths(c, SeqSpec{Fn: fn, NoMerge: true})
 	key := FnName(fn)
